@@ -58,6 +58,19 @@ claim("C12",
       "table lint + normalised expression-tree equality against the reference table; declaration scan of the Java runtime",
       "DESIGN.md section 3, C12")
 
+claim("C18",
+      "Typestate over the clang CFG of every function of every compiler unit: a stream opened for writing (mode strings "
+      "read from the osIo*Mode definitions) reaches the checked close fileCloseOut on every path to the function's exit and "
+      "is never closed by a bare fclose; the checked close tests ferror and fclose's result and calls the file error handler, "
+      "which is installed and fatal; libWrite/libClose keep header-then-checked-close for libraries. This is the whole "
+      "mechanism by which a failed write can reach the exit status, so the claim is strong for the outputs the property "
+      "names; the C++ stub writer gencpp.c (raw fopen, not in the property's list) is reported as a note only.",
+      "Trusted: clang 14 CFG; ISO C sticky stream error indicator; the frozen reading that fileMustOpen is the only "
+      "open-or-die helper. Path search is path-insensitive except for null tests of the stream variable and the "
+      "lib->rdOnly/wrMode mode tests.",
+      "typestate / must-pass-through analysis on the clang CFG plus who-may-close rule",
+      "DESIGN.md section 3, C18")
+
 PENDING_REASON = "check designed in DESIGN.md but not yet built in this tree; not claimed until it runs"
 
 
